@@ -25,6 +25,14 @@ def lookup_path(ctx, cls):
                 t = ctx.repo.find_method(cls, n.func.attr)
                 if t is not None and t.cls is not None:
                     todo.append(t)
+            # item access on the receiver runs the class's own item methods, if it defines any
+            implicit = None
+            if isinstance(n, ast.Subscript) and isinstance(n.value, ast.Name) and n.value.id == rv:
+                implicit = {ast.Store: "__setitem__", ast.Del: "__delitem__", ast.Load: "__getitem__"}[type(n.ctx)]
+            elif isinstance(n, ast.Compare) and any(isinstance(o, (ast.In, ast.NotIn)) for o in n.ops) and any(isinstance(c, ast.Name) and c.id == rv for c in n.comparators):
+                implicit = "__contains__"
+            if implicit and implicit in cls.methods and cls.methods[implicit] is not m:
+                todo.append(cls.methods[implicit])
     return seen
 
 
